@@ -161,4 +161,17 @@ theorem meta_error_located (uni : String → Option CharSet) (memchr detail : Bo
   PestModel.C08.error_position_inside false _ meta_accepted.isOptimized meta_accepted.tagRules meta_accepted.small
     uni memchr detail fuel name input st h
 
+set_option maxRecDepth 100000 in
+/-- **The bootstrapped meta-parser (VM model) never panics**: `grammar.pest` only mentions its own rules and built-ins that cannot
+get stuck, so for every one of its rules as start rule and every text the VM model ends with pairs or with an error — the parse
+stage of C09's "never panics", for the model of the parser that `parse_and_optimize` runs first. -/
+theorem meta_vm_never_panics (uni : String → Option CharSet) (memchr detail : Bool) (name : String)
+    (hn : (PestModel.Gen.Meta.rules.map (·.name)).contains name = true) (input : Str) :
+    ∃ fuel, match PestModel.C01.vmParse PestModel.Gen.Meta.optimized uni memchr detail fuel name input with
+      | .ok _ => True
+      | .err _ => True
+      | .panic => False
+      | .fuel => False :=
+  PestModel.E2E.accepted_closed_grammar_never_panics false _ _ meta_accepted (by decide +kernel) uni memchr detail name hn input
+
 end PestModel.Capstone
